@@ -29,6 +29,9 @@ def bad_path_scenarios(ctx, n):
         kind = rng.choice(["relative", "missing", "file", "nested-missing", "nested-file"])
         # replace one of the paths by the bad one, or (scan paths only) add the bad one next to the valid ones
         mode = rng.choice(["replace", "insert"]) if not kind.startswith("nested") else "insert"
+        if i % 6 == 4:
+            kind = rng.choice(["fifo", "devnull"])   # exists, absolute, neither a directory nor a regular file
+            mode = "replace" if kind == "devnull" else mode
         if i % 6 == 5:
             kind = "dotdot-missing"       # <tree>/lnk_bad/../ghost: the kernel resolves it to a path that does not exist, a textual fold to one that does
         out.append((runprops.Scenario("bad", ctx["seed"], i, {"pos": pos, "kind": kind, "mode": mode}), w))
@@ -56,12 +59,14 @@ def run_bad(ctx, scen):
             export = os.path.join(btree, *w.export)
             pos, kind = sc.variant["pos"], sc.variant["kind"]
             first_file = next((os.path.join(btree, *k) for k, v in sorted(w.files.items()) if v[0] == "file" and w.scans and k[:len(w.scans[0])] == tuple(w.scans[0])), os.path.join(btree, b"loose.bin"))
+            if kind == "fifo" and not os.path.lexists(os.path.join(btree, b"a-fifo")):
+                os.mkfifo(os.path.join(btree, b"a-fifo"))
             if kind == "dotdot-missing":
                 os.makedirs(os.path.join(btree, b"bystander", b"deep"), exist_ok=True)
                 os.makedirs(os.path.join(btree, b"ghost"), exist_ok=True)
                 if not os.path.lexists(os.path.join(btree, b"lnk_bad")):
                     os.symlink(b"bystander/deep", os.path.join(btree, b"lnk_bad"))
-            bad = {"dotdot-missing": os.path.join(btree, b"lnk_bad", b"..", b"ghost"), "relative": b"relative/dir", "missing": os.path.join(btree, b"no-such-dir"), "file": os.path.join(btree, b"loose.bin"),
+            bad = {"fifo": os.path.join(btree, b"a-fifo"), "devnull": b"/dev/null", "dotdot-missing": os.path.join(btree, b"lnk_bad", b"..", b"ghost"), "relative": b"relative/dir", "missing": os.path.join(btree, b"no-such-dir"), "file": os.path.join(btree, b"loose.bin"),
                    "nested-missing": os.path.join(scans[0], b"no-such-child") if scans else os.path.join(btree, b"no-such-dir"),
                    "nested-file": first_file}[kind]
             if sc.variant.get("mode") == "insert":
@@ -347,7 +352,7 @@ def correspondence(ctx):
         elif len(findings) < 5:
             findings.append({"scenario": {"tag": "fifo", "world_seed": ctx["seed"]}, "violated_clause": "with a FIFO at the export location of a torrent file the CLI does not return (killed after the time limit)"})
     out = runprops.result("C16", ctx, runs, findings, broken, dict(stats),
-                          "a missing directory spelled through a symbolic link and '..' whose textual fold exists; near-loadable documents (a degenerate value in the name / path variant the loader uses, same-length files on disk); bad path of every kind (relative / missing / a file; also missing or a file INSIDE a valid scan directory, added next to the valid ones) in every position (each scan directory, the export directory); no loadable torrent; unloadable documents among loadable ones; degenerate loadable torrents (padding-only pieces, empty files, 2^46-byte declared lengths, odd names); the CLI binary with unloadable torrent files; each run in a child process",
+                          "a FIFO or a device node as a directory argument; a missing directory spelled through a symbolic link and '..' whose textual fold exists; near-loadable documents (a degenerate value in the name / path variant the loader uses, same-length files on disk); bad path of every kind (relative / missing / a file; also missing or a file INSIDE a valid scan directory, added next to the valid ones) in every position (each scan directory, the export directory); no loadable torrent; unloadable documents among loadable ones; degenerate loadable torrents (padding-only pieces, empty files, 2^46-byte declared lengths, odd names); the CLI binary with unloadable torrent files; each run in a child process",
                           "bad_path_no_effect (prelude program), solve_prog_good (no panic), load_total proved; tied to the code by trace validation and child-process outcomes")
     out["known_lines"] = sorted(known_lines)
     out["evaluations"] = len(runs) + stats["cli runs"]
